@@ -11,6 +11,7 @@ import (
 	"sort"
 	"strconv"
 	"strings"
+	"sync"
 
 	og "github.com/kisielk/og-rek"
 )
@@ -19,8 +20,11 @@ import (
 type UserObj struct{ N int }
 
 var userObjs = map[int]*UserObj{}
+var userObjsMu sync.Mutex // the table is the harness's, not the library's: guarded for the concurrent driver
 
 func userObj(n int) *UserObj {
+	userObjsMu.Lock()
+	defer userObjsMu.Unlock()
 	if o, ok := userObjs[n]; ok {
 		return o
 	}
